@@ -112,10 +112,11 @@ class Oracle:
                                         _lit(im.numerator), _lit(im.denominator)))
         return "\n".join(out) + "\n"
 
-    def get_hints(self, target_radius_log2=-200, force_sqf=False, timeout=600):
+    def get_hints(self, target_radius_log2=-200, force_sqf=False, timeout=600, exact_only=False):
         req = {"coeffs": [[str(re.numerator), str(re.denominator), str(im.numerator), str(im.denominator)]
                           for re, im in self.coeffs],
-               "target_log2": int(target_radius_log2), "force_sqf": bool(force_sqf)}
+               "target_log2": int(target_radius_log2), "force_sqf": bool(force_sqf),
+               "exact_only": bool(exact_only)}
         try:
             p = subprocess.run([PY_VT, HINTS], input=json.dumps(req), stdout=subprocess.PIPE,
                                stderr=subprocess.PIPE, text=True, timeout=timeout)
@@ -136,7 +137,7 @@ class Oracle:
         out.append("mult %s %s %s %s\n" % (_lit(int(h["g"][0])), _lit(int(h["g"][1])),
                                            _lit(int(h["a"][0])), _lit(int(h["a"][1]))))
         for k, f in enumerate(h["factors"]):
-            out.append("factor %d %d\n" % (int(f["m"]), len(f["q"]) - 1))
+            out.append("factor %d %d %d\n" % (int(f["m"]), len(f["q"]) - 1, int(f.get("prec", 0))))
             for a, b in f["q"]:
                 out.append("%s %s\n" % (_lit(int(a)), _lit(int(b))))
         for k, f in enumerate(h["factors"]):
@@ -254,8 +255,20 @@ class Oracle:
         return sum(r["mult"] for r in self.roots)
 
 
-# ---------- exact conversions to monomial coefficients (python Fractions: part of the
-# ---------- trusted harness; Coq counterparts with theorems are in coq/Roots/Transform.v when present)
+def certify_all(oracles, target_radius_log2=-200, workers=8, timeout=600):
+    """certify() several Oracle objects concurrently (the work happens in subprocesses, so threads
+    suffice).  target_radius_log2 may be a list (one per oracle).  Returns the list of booleans."""
+    from concurrent.futures import ThreadPoolExecutor
+    oracles = list(oracles)
+    tl = target_radius_log2 if isinstance(target_radius_log2, (list, tuple)) else [target_radius_log2] * len(oracles)
+    with ThreadPoolExecutor(max_workers=max(1, workers)) as ex:
+        return list(ex.map(lambda ot: ot[0].certify(ot[1], timeout=timeout), zip(oracles, tl)))
+
+
+# ---------- exact conversions to monomial coefficients.
+# secular_to_monomial / chebyshev_to_monomial call the extracted Coq functions of coq/Roots/Transform.v
+# (theorems secular_to_monomial_roots, chebyshev_to_monomial_sound); the *_py variants below are a pure
+# python re-implementation used as fallback when bin/cert is missing and as a cross-check in the self-test.
 def _cadd(x, y): return (x[0] + y[0], x[1] + y[1])
 def _csub(x, y): return (x[0] - y[0], x[1] - y[1])
 def _cmul(x, y): return (x[0] * y[0] - x[1] * y[1], x[0] * y[1] + x[1] * y[0])
@@ -271,7 +284,7 @@ def _pmul_lin(p, b):
     return out
 
 
-def secular_to_monomial(a, b):
+def secular_to_monomial_py(a, b):
     """Secular equation sum_i a_i/(x - b_i) - 1 = 0  ->  coefficients (low->high) of
     prod_j (x - b_j) - sum_i a_i prod_{j != i} (x - b_j), which has the same roots when the b_i are
     pairwise distinct and every a_i != 0."""
@@ -292,7 +305,7 @@ def secular_to_monomial(a, b):
     return res
 
 
-def chebyshev_to_monomial(c):
+def chebyshev_to_monomial_py(c):
     """sum_k c_k T_k(x)  ->  monomial coefficients (low->high), T_0 = 1, T_1 = x, T_{k+1} = 2x T_k - T_{k-1}"""
     c = [_cfrac(x) for x in c]
     z = (Fraction(0), Fraction(0)); one = (Fraction(1), Fraction(0)); two = (Fraction(2), Fraction(0))
@@ -309,3 +322,45 @@ def chebyshev_to_monomial(c):
                 nxt[i] = _csub(nxt[i], v)
             t_prev, t_cur = t_cur, nxt
     return res
+
+
+def _run_transform(text, cert_bin=None):
+    cert_bin = cert_bin or CERT_BIN
+    p = subprocess.run([cert_bin], input="hexout\n" + text, stdout=subprocess.PIPE, text=True, timeout=600)
+    lines = p.stdout.split("\n")
+    if not lines or not lines[0].startswith("POLY"):
+        raise OracleError("transform failed: " + (lines[0] if lines else "no output"))
+    n = int(lines[0].split()[1])
+    res = []
+    for l in lines[1:n + 2]:
+        a, b, c, d = [int(x, 0) for x in l.split()]
+        res.append((Fraction(a, b), Fraction(c, d)))
+    return res
+
+
+def _q4(x):
+    return "%s %s %s %s" % (_lit(x[0].numerator), _lit(x[0].denominator), _lit(x[1].numerator), _lit(x[1].denominator))
+
+
+def secular_to_monomial(a, b, cert_bin=None):
+    """Secular equation sum_i a_i/(x - b_i) - 1 = 0  ->  monomial coefficients (low->high) of
+    prod_j (x - b_j) - sum_i a_i prod_{j != i} (x - b_j), computed by the extracted Coq function
+    Transform.secular_to_monomial (same roots when the b_i are distinct and the a_i non-zero)."""
+    a = [_cfrac(x) for x in a]; b = [_cfrac(x) for x in b]
+    if len(a) != len(b):
+        raise ValueError("secular: len(a) != len(b)")
+    if not os.access(cert_bin or CERT_BIN, os.X_OK):
+        return secular_to_monomial_py(a, b)
+    text = "secular %d\n" % len(a) + "".join("%s %s\n" % (_q4(x), _q4(y)) for x, y in zip(a, b))
+    return _run_transform(text, cert_bin)
+
+
+def chebyshev_to_monomial(c, cert_bin=None):
+    """sum_k c_k T_k(x) -> monomial coefficients (low->high), by the extracted Transform.chebyshev_to_monomial"""
+    c = [_cfrac(x) for x in c]
+    if not c:
+        return [(Fraction(0), Fraction(0))]
+    if not os.access(cert_bin or CERT_BIN, os.X_OK):
+        return chebyshev_to_monomial_py(c)
+    text = "cheb %d\n" % (len(c) - 1) + "".join("%s\n" % _q4(x) for x in c)
+    return _run_transform(text, cert_bin)
